@@ -11,7 +11,7 @@ Excluded from random output (documented stricter-than-CPython cases and known-fi
 deterministically elsewhere): duplicate parameter names, repeated keyword arguments, tab after space in
 indentation; identifiers that are not NFKC-stable; a logical line starting with the NAME `match`/`case`
 that has a later top-level colon; `<number>.<keyword>`; `x[*a]`;
-`match x,:`; triple-quoted strings inside f-string fields; (opt `no_pep695_after_semi`) type alias not at
+triple-quoted strings inside f-string fields; (opt `no_pep695_after_semi`) type alias not at
 line start.
 """
 import json
@@ -56,7 +56,7 @@ class Gen:
         self.unicode_names = unicode_names
         self.nstmts = stmts
         # range_clean: keep the shapes of the listed C02 findings out (sole generator argument, f-string pieces
-        # in a concatenation, parenthesised walrus value, trailing `;` at the end of a block, defaults)
+        # in a concatenation, parenthesised walrus value, trailing `;` at the end of a block, parenthesised defaults)
         self.range_clean = range_clean
         self.br = 0            # bracket nesting while rendering
         self.infs = 0          # inside an f-string field
@@ -578,7 +578,10 @@ class Gen:
                 s += self.O() + ":" + self.O() + (("*" + self.expr(d, 6)) if (star and self.p(0.3)) else self.expr(d, 1))
             if default_ok and (must_default or self.p(0.3)):
                 eq = self.O() + "=" + self.O() if not (annotations and ":" in s) else " = "
-                s += eq + self.expr(d, 1)
+                dv = self.expr(d, 1)
+                if self.range_clean and dv.lstrip().startswith("(") and dv.rstrip().endswith(")"):
+                    dv = self.name()        # a parenthesised default: listed C02 finding (closing parenthesis)
+                s += eq + dv
                 return s, True
             return s, False
         items = []
@@ -1075,6 +1078,8 @@ class Gen:
         n = self.ch([1, 1, 1, 2, 3])
         if n == 1:
             subj = self.expr(d, 0 if self.p(0.1) else 1)
+            if self.p(0.15) and not self.range_clean:
+                subj += self.O() + ","      # `match x,:` — the subject is the tuple of one element
         else:
             items = [("*" + self.expr(d, 6)) if self.p(0.15) else self.expr(d, 1) for _ in range(n)]
             subj = ", ".join(items) + ("," if self.p(0.3) else "")
